@@ -7,8 +7,11 @@ import props
 
 NOTE = ("Trusted: Lean 4.33 kernel; axioms propext, Classical.choice, Quot.sound only (audited with #print axioms on every run, no native_decide/bv_decide/sorry); "
         "the statements in lean/BS/Spec.lean and lean/BS/Props; the hand-written model lean/BS/Impl is tied to /repo by the differential correspondence "
-        "(bsrun drives the real library, the compiled Lean driver runs the model and the spec on the same op scripts, lib/judge.py compares) and by constants "
-        "regenerated from the sources (tools/extract_consts.py) — that tie is sampling, not proof. Modelled, not verified: OS file semantics, Rust std "
+        "(bsrun drives the real library, the compiled Lean driver runs the model and the spec on the same op scripts, lib/judge.py compares) — that tie is sampling, not proof — "
+        "by constants regenerated from the sources (tools/extract_consts.py), and for the decision/arithmetic core (seek.rs search areas and bounds, estimate.rs, "
+        "index.rs line_pos/search bounds/in_gap, data.rs len/range/line_pos, the layout arithmetic: 26 functions and constants) by TRANSLATION: tools/rs2lean.py rewrites "
+        "those Rust functions to Lean on every run (BS/Generated/Core.lean, checked arithmetic, same control flow) and BS/Proofs/GenTie.lean proves each equal to the model's "
+        "function; trusted there: the translator (a syntactic parser/printer) and the std vocabulary in BS/Impl/GenPrelude.lean. Modelled, not verified: OS file semantics, Rust std "
         "(binary_search, chunks_exact, str::find), no I/O errors, 64-bit usize, overflow-checked profile. See DESIGN.md §10.")
 
 checks = []
@@ -23,7 +26,7 @@ for pid in sorted(props.PROPS):
         "engine": "lean-model+bsrun",
         "level_claimed": {"category": "proof", "text": cfg.get("level_text", "see DESIGN.md §7"), "design_ref": f"DESIGN.md §7 {pid}, §14"},
         "level_note": NOTE,
-        "technique": cfg.get("technique", "Lean 4 theorems about an executable model + differential correspondence model/implementation/spec"),
+        "technique": cfg.get("technique", "Lean 4 theorems about an executable model; model tied to the code by (a) a Rust-to-Lean translation of the decision/arithmetic core regenerated on every run and proved equal to the model (BS/Proofs/GenTie.lean) and (b) differential correspondence implementation/model/specification on generated op scripts" if cfg.get("ties") else "Lean 4 theorems about an executable model + differential correspondence model/implementation/spec"),
     })
 m = {
     "version": 1,
@@ -33,6 +36,7 @@ m = {
     "engines": [
         {"name": "lean-model", "path": "lean/", "serves_properties": sorted(props.PROPS), "kind_free_text": "Lean 4 specification, executable model of the implementation, theorems, compiled line-protocol driver"},
         {"name": "bsrun", "path": "harness/", "serves_properties": sorted(props.PROPS), "kind_free_text": "Rust harness driving the real library from op scripts (public API + file-level faults)"},
+        {"name": "rs2lean", "path": "tools/rs2lean.py", "serves_properties": sorted(p for p in props.PROPS if props.PROPS[p].get("ties")), "kind_free_text": "translator: Rust subset (tools/rsparse.py) to Lean 4 definitions (lean/BS/Generated/Core.lean), regenerated from /repo/src on every run; tie theorems in lean/BS/Proofs/GenTie.lean; function-level counterexample search lean/GenDiff.lean"},
         {"name": "judge", "path": "check.py", "serves_properties": sorted(props.PROPS), "kind_free_text": "generators, differential comparison under per-property projections, axiom audit, evidence"},
     ],
     "checks": checks,
